@@ -810,6 +810,11 @@ def build_spec(g):
     g.func("ground_loads.py", "monthdays")
     g.func("ground_loads.py", "first_month_hour", ptypes={"years": "list Q"})
     g.func("ground_loads.py", "last_month_hour", ptypes={"years": "list Q"})
+    # ---- point in polygon (shape.py) ----
+    g.func("shape.py", "point_polygon_check.between", coqname="between", rettype="bool")
+    g.assign_expr("shape.py", "point_polygon_check", "c", "ppc_cross", ["v1x", "px", "v2y", "py", "v2x", "v1y"])
+    g.default_arg("shape.py", "point_polygon_check", "on_edge_tolerance", "ppc_on_edge_tolerance")
+    g.default_arg("feature_recognition.py", "remove_cutout", "on_edge_tolerance", "cutout_on_edge_tolerance")
     # ---- the hybrid load sequence (ground_loads.py), the whole method ----
     lq = "list Q"
     g.func("ground_loads.py", "HybridLoad.process_month_loads", coqname="process_month_loads", rettype="tuple",
